@@ -5,23 +5,22 @@
 // alphabet (literal / text parameter / binary parameter; simple / extended protocol; column
 // list / schema order / multi-row / RETURNING / UPDATE; star / explicit / alias / join select
 // lists) for every column configuration. Oracles:
-//   (a) owner transparency: what the owning client receives through Acra equals, message for
-//       message, what a plain database answers to the same statements (differential oracle with
-//       a shadow reference database that never saw Acra);
-//   (b) confidentiality: no byte string arriving at the database end contains a protected
-//       plaintext in any encoding; the value stored for a protected column is never the plaintext;
-//   (c) non-owners receive exactly what the database stores (or the masked form);
-//   (d) statements that do not involve protected columns are forwarded byte-identically, and
-//       rewritten statements keep their parse-tree shape.
+//
+//	(a) owner transparency: what the owning client receives through Acra equals, message for
+//	    message, what a plain database answers to the same statements (differential oracle with
+//	    a shadow reference database that never saw Acra);
+//	(b) confidentiality: no byte string arriving at the database end contains a protected
+//	    plaintext in any encoding; the value stored for a protected column is never the plaintext;
+//	(c) non-owners receive exactly what the database stores (or the masked form);
+//	(d) statements that do not involve protected columns are forwarded byte-identically, and
+//	    rewritten statements keep their parse-tree shape.
 package main
 
 import (
 	"bytes"
-	"encoding/binary"
 	"encoding/json"
 	"fmt"
 	"os"
-	"sort"
 	"strconv"
 	"strings"
 
@@ -31,26 +30,13 @@ import (
 	"verif/ev"
 	"verif/fx"
 	"verif/par"
+	"verif/pgcheck"
 	"verif/sess"
 )
 
-type colCfg struct {
-	Name    string
-	YAML    string // settings of column c (indented lines)
-	Prot    uint32 // type of column c in the protected database
-	Shadow  uint32 // type of column c as the application sees it
-	Owner   []byte // identity that can decrypt
-	Writer  []byte // identity of the writing session
-	Masked  bool
-	Token   bool
-	Search  bool
-	MaskPat string
-	MaskLen int
-}
-
-func configs(thorough bool) []colCfg {
+func configs(thorough bool) []pgcheck.ColCfg {
 	a, b := fx.Alpha, fx.Bravo
-	cs := []colCfg{
+	cs := []pgcheck.ColCfg{
 		{Name: "block", YAML: "crypto_envelope: acrablock", Prot: sess.OIDBytea, Shadow: sess.OIDBytea, Owner: a, Writer: a},
 		{Name: "struct", YAML: "crypto_envelope: acrastruct", Prot: sess.OIDBytea, Shadow: sess.OIDBytea, Owner: a, Writer: a},
 		{Name: "block-search", YAML: "crypto_envelope: acrablock\n        searchable: true", Prot: sess.OIDBytea, Shadow: sess.OIDBytea, Owner: a, Writer: a, Search: true},
@@ -61,37 +47,19 @@ func configs(thorough bool) []colCfg {
 	}
 	if thorough {
 		cs = append(cs,
-			colCfg{Name: "struct-search", YAML: "crypto_envelope: acrastruct\n        searchable: true", Prot: sess.OIDBytea, Shadow: sess.OIDBytea, Owner: a, Writer: a, Search: true},
-			colCfg{Name: "struct-mask-right2", YAML: "crypto_envelope: acrastruct\n        masking: \"**\"\n        plaintext_length: 2\n        plaintext_side: right", Prot: sess.OIDBytea, Shadow: sess.OIDBytea, Owner: a, Writer: a, Masked: true, MaskPat: "**", MaskLen: -2},
-			colCfg{Name: "token-int32", YAML: "token_type: int32\n        tokenized: true\n        consistent_tokenization: true", Prot: sess.OIDInt4, Shadow: sess.OIDInt4, Owner: a, Writer: a, Token: true},
-			colCfg{Name: "typed-int32", YAML: "crypto_envelope: acrablock\n        data_type: int32", Prot: sess.OIDBytea, Shadow: sess.OIDInt4, Owner: a, Writer: a},
-			colCfg{Name: "typed-bytes", YAML: "crypto_envelope: acrastruct\n        data_type: bytes", Prot: sess.OIDBytea, Shadow: sess.OIDBytea, Owner: a, Writer: a},
+			pgcheck.ColCfg{Name: "struct-search", YAML: "crypto_envelope: acrastruct\n        searchable: true", Prot: sess.OIDBytea, Shadow: sess.OIDBytea, Owner: a, Writer: a, Search: true},
+			pgcheck.ColCfg{Name: "struct-mask-right2", YAML: "crypto_envelope: acrastruct\n        masking: \"**\"\n        plaintext_length: 2\n        plaintext_side: right", Prot: sess.OIDBytea, Shadow: sess.OIDBytea, Owner: a, Writer: a, Masked: true, MaskPat: "**", MaskLen: -2},
+			pgcheck.ColCfg{Name: "token-int32", YAML: "token_type: int32\n        tokenized: true\n        consistent_tokenization: true", Prot: sess.OIDInt4, Shadow: sess.OIDInt4, Owner: a, Writer: a, Token: true},
+			pgcheck.ColCfg{Name: "typed-int32", YAML: "crypto_envelope: acrablock\n        data_type: int32", Prot: sess.OIDBytea, Shadow: sess.OIDInt4, Owner: a, Writer: a},
+			pgcheck.ColCfg{Name: "typed-bytes", YAML: "crypto_envelope: acrastruct\n        data_type: bytes", Prot: sess.OIDBytea, Shadow: sess.OIDBytea, Owner: a, Writer: a},
 		)
 	}
 	return cs
 }
 
-func (c colCfg) yaml() string {
-	return "schemas:\n  - table: t\n    columns: [id, plain, c]\n    encrypted:\n      - column: c\n        " + c.YAML + "\n"
-}
-
-func (c colCfg) newDB(shadow bool) *sess.PGDB {
-	db := sess.NewPGDB()
-	typ := c.Prot
-	if shadow {
-		typ = c.Shadow
-	}
-	db.AddTable("t", sess.PGColumn{Name: "id", OID: sess.OIDInt4}, sess.PGColumn{Name: "plain", OID: sess.OIDText}, sess.PGColumn{Name: "c", OID: typ})
-	u := db.AddTable("u", sess.PGColumn{Name: "id", OID: sess.OIDInt4}, sess.PGColumn{Name: "note", OID: sess.OIDText})
-	for i := 1; i <= 3; i++ {
-		u.Rows = append(u.Rows, [][]byte{[]byte(strconv.Itoa(i)), []byte(fmt.Sprintf("note-%d", i))})
-	}
-	return db
-}
-
 // ---- values and their spellings ---------------------------------------------------------
 
-func values(c colCfg, thorough bool) [][]byte {
+func values(c pgcheck.ColCfg, thorough bool) [][]byte {
 	switch c.Shadow {
 	case sess.OIDInt4:
 		return [][]byte{[]byte("12"), []byte("-2147483648"), []byte("2147483647"), []byte("0")}
@@ -109,120 +77,62 @@ func values(c colCfg, thorough bool) [][]byte {
 	return v
 }
 
-func printable(v []byte) bool {
-	for _, b := range v {
-		if b < 32 || b > 126 || b == '\\' {
-			return false
-		}
-	}
-	return true
-}
-
-// literal spellings of v for a column of shadow type oid
-func literals(oid uint32, v []byte) []string {
-	switch oid {
-	case sess.OIDInt4:
-		return []string{string(v)}
-	case sess.OIDText:
-		return []string{sess.QuoteLit(v)}
-	}
-	out := []string{sess.HexLit(v)}
-	if printable(v) && len(v) > 0 {
-		out = append(out, sess.QuoteLit(v))
-	}
-	return out
-}
-
-// text-format parameter spellings
-func textParams(oid uint32, v []byte) [][]byte {
-	if oid == sess.OIDBytea {
-		out := [][]byte{[]byte(`\x` + fmt.Sprintf("%x", v))}
-		if printable(v) && len(v) > 0 {
-			out = append(out, v)
-		}
-		return out
-	}
-	return [][]byte{v}
-}
-
-func binParam(oid uint32, v []byte) []byte {
-	if oid == sess.OIDInt4 {
-		n, _ := strconv.ParseInt(string(v), 10, 32)
-		var b [4]byte
-		binary.BigEndian.PutUint32(b[:], uint32(int32(n)))
-		return b[:]
-	}
-	return v
-}
-
 // ---- statement alphabet -----------------------------------------------------------------
 
-type stmtT struct {
-	sess.Stmt
-	Kind  string
-	Write bool
-}
-
-func mk(kind, desc string, write, prot bool, msgs []pgproto3.FrontendMessage, secrets ...[]byte) stmtT {
-	return stmtT{Stmt: sess.Stmt{Desc: desc, Msgs: msgs, Secrets: secrets, Protected: prot}, Kind: kind, Write: write}
-}
-
-func i4(n int) []byte { return []byte(strconv.Itoa(n)) }
-
 // writes returns the write statements for row id k with value v (v2 for the second row).
-func writes(c colCfg, k int, v, v2 []byte, thorough bool) []stmtT {
-	var out []stmtT
-	for li, lit := range literals(c.Shadow, v) {
+func writes(c pgcheck.ColCfg, k int, v, v2 []byte, thorough bool) []pgcheck.Stmt {
+	var out []pgcheck.Stmt
+	for li, lit := range pgcheck.Literals(c.Shadow, v) {
 		tag := fmt.Sprintf("lit%d", li)
-		out = append(out, mk("insert-cols-"+tag, fmt.Sprintf("insert into t (id, plain, c) values (%d, 'p%d', %s)", k, k, lit), true, true,
+		out = append(out, pgcheck.Mk("insert-cols-"+tag, fmt.Sprintf("insert into t (id, plain, c) values (%d, 'p%d', %s)", k, k, lit), true, true,
 			sess.Q(fmt.Sprintf("insert into t (id, plain, c) values (%d, 'p%d', %s)", k, k, lit)), v))
 		if li == 0 {
-			out = append(out, mk("insert-schema-order", "", true, true,
+			out = append(out, pgcheck.Mk("insert-schema-order", "", true, true,
 				sess.Q(fmt.Sprintf("insert into t values (%d, 'p%d', %s)", k, k, lit)), v))
-			lit2 := literals(c.Shadow, v2)[0]
-			out = append(out, mk("insert-two-rows", "", true, true,
+			lit2 := pgcheck.Literals(c.Shadow, v2)[0]
+			out = append(out, pgcheck.Mk("insert-two-rows", "", true, true,
 				sess.Q(fmt.Sprintf("insert into t (id, plain, c) values (%d, 'p%d', %s), (%d, 'q', %s)", k, k, lit, k+100, lit2)), v, v2))
-			out = append(out, mk("insert-returning", "", true, true,
+			out = append(out, pgcheck.Mk("insert-returning", "", true, true,
 				sess.Q(fmt.Sprintf("insert into t (id, plain, c) values (%d, 'p%d', %s) returning id, c", k, k, lit)), v))
-			out = append(out, mk("update-literal", "", true, true,
+			out = append(out, pgcheck.Mk("update-literal", "", true, true,
 				sess.Q(fmt.Sprintf("update t set c = %s where id = %d", lit, k-1)), v))
 			if thorough {
-				out = append(out, mk("insert-reordered-cols", "", true, true,
+				out = append(out, pgcheck.Mk("insert-reordered-cols", "", true, true,
 					sess.Q(fmt.Sprintf("insert into t (c, id) values (%s, %d)", lit, k)), v))
-				out = append(out, mk("insert-upper", "", true, true,
+				out = append(out, pgcheck.Mk("insert-upper", "", true, true,
 					sess.Q(fmt.Sprintf("INSERT INTO T (ID, PLAIN, C) VALUES (%d, 'p', %s)", k, lit)), v))
 			}
 		}
 	}
-	for pi, p := range textParams(c.Shadow, v) {
-		out = append(out, mk(fmt.Sprintf("ext-insert-text-param%d", pi), "", true, true,
-			sess.Ext("", "insert into t (id, plain, c) values ($1, $2, $3)", [][]byte{i4(k), []byte("pp"), p}, nil, nil, nil), v))
+	for pi, p := range pgcheck.TextParams(c.Shadow, v) {
+		out = append(out, pgcheck.Mk(fmt.Sprintf("ext-insert-text-param%d", pi), "", true, true,
+			sess.Ext("", "insert into t (id, plain, c) values ($1, $2, $3)", [][]byte{pgcheck.I4(k), []byte("pp"), p}, nil, nil, nil), v))
 	}
-	out = append(out, mk("ext-insert-binary-param", "", true, true,
-		sess.Ext("", "insert into t (id, plain, c) values ($1, $2, $3)", [][]byte{i4(k), []byte("pb"), binParam(c.Shadow, v)}, []int16{0, 0, 1}, nil, nil), v))
-	out = append(out, mk("ext-update-text-param", "", true, true,
-		sess.Ext("", "update t set c = $1 where id = $2", [][]byte{textParams(c.Shadow, v)[0], i4(k - 1)}, nil, nil, nil), v))
+	out = append(out, pgcheck.Mk("ext-insert-binary-param", "", true, true,
+		sess.Ext("", "insert into t (id, plain, c) values ($1, $2, $3)", [][]byte{pgcheck.I4(k), []byte("pb"), pgcheck.BinParam(c.Shadow, v)}, []int16{0, 0, 1}, nil, nil), v))
+	out = append(out, pgcheck.Mk("ext-update-text-param", "", true, true,
+		sess.Ext("", "update t set c = $1 where id = $2", [][]byte{pgcheck.TextParams(c.Shadow, v)[0], pgcheck.I4(k - 1)}, nil, nil, nil), v))
 	// named statement parsed once and executed twice with different values
-	named := sess.Ext("ins"+strconv.Itoa(k), "insert into t (id, plain, c) values ($1, $2, $3)", [][]byte{i4(k), []byte("n1"), textParams(c.Shadow, v)[0]}, nil, nil, nil)
-	named = append(named, sess.Rebind("ins"+strconv.Itoa(k), [][]byte{i4(k + 100), []byte("n2"), textParams(c.Shadow, v2)[0]}, nil, nil)...)
-	out = append(out, mk("ext-named-twice", "", true, true, named, v, v2))
+	named := sess.Ext("ins"+strconv.Itoa(k), "insert into t (id, plain, c) values ($1, $2, $3)", [][]byte{pgcheck.I4(k), []byte("n1"), pgcheck.TextParams(c.Shadow, v)[0]}, nil, nil, nil)
+	named = append(named, sess.Rebind("ins"+strconv.Itoa(k), [][]byte{pgcheck.I4(k + 100), []byte("n2"), pgcheck.TextParams(c.Shadow, v2)[0]}, nil, nil)...)
+	out = append(out, pgcheck.Mk("ext-named-twice", "", true, true, named, v, v2))
 	// writes that do not involve the protected column
-	out = append(out, mk("insert-unprotected-table", "", true, false, sess.Q(fmt.Sprintf("insert into u (id, note) values (%d, 'n''%d')", k+10, k))))
+	out = append(out, pgcheck.Mk("insert-unprotected-table", "", true, false, sess.Q(fmt.Sprintf("insert into u (id, note) values (%d, 'n''%d')", k+10, k))))
 	return out
 }
 
-func reads(c colCfg, k int, v []byte, thorough bool) []stmtT {
-	out := []stmtT{
-		mk("select-c-by-id", "", false, true, sess.Q(fmt.Sprintf("select c from t where id = %d", k))),
-		mk("select-star", "", false, true, sess.Q("select * from t")),
-		mk("select-alias", "", false, true, sess.Q("select id, c as x, plain from t")),
-		mk("ext-select-text", "", false, true, sess.Ext("", "select c from t where id = $1", [][]byte{i4(k)}, nil, nil, nil)),
-		mk("ext-select-binary", "", false, true, sess.Ext("", "select id, c from t where id = $1", [][]byte{i4(k)}, nil, []int16{1}, nil)),
-		mk("ext-select-mixed-formats", "", false, true, sess.Ext("", "select plain, c from t", nil, nil, []int16{0, 1}, nil)),
-		mk("select-join", "", false, true, sess.Q("select t.c, u.note from t join u on t.id = u.id")),
-		mk("select-unprotected-cols", "", false, false, sess.Q("select id, plain from t")),
-		mk("select-unprotected-table", "", false, false, sess.Q("select  note , id   from u where id = 2 /* keep my bytes */")),
-		mk("ext-select-unprotected", "", false, false, sess.Ext("", "select note from u where id = $1", [][]byte{i4(1)}, nil, []int16{1}, nil)),
+func reads(c pgcheck.ColCfg, k int, v []byte, thorough bool) []pgcheck.Stmt {
+	out := []pgcheck.Stmt{
+		pgcheck.Mk("select-c-by-id", "", false, true, sess.Q(fmt.Sprintf("select c from t where id = %d", k))),
+		pgcheck.Mk("select-star", "", false, true, sess.Q("select * from t")),
+		pgcheck.Mk("select-alias", "", false, true, sess.Q("select id, c as x, plain from t")),
+		pgcheck.Mk("ext-select-text", "", false, true, sess.Ext("", "select c from t where id = $1", [][]byte{pgcheck.I4(k)}, nil, nil, nil)),
+		pgcheck.Mk("ext-select-binary", "", false, true, sess.Ext("", "select id, c from t where id = $1", [][]byte{pgcheck.I4(k)}, nil, []int16{1}, nil)),
+		pgcheck.Mk("ext-select-mixed-formats", "", false, true, sess.Ext("", "select plain, c from t", nil, nil, []int16{0, 1}, nil)),
+		pgcheck.Mk("select-join", "", false, true, sess.Q("select t.c, u.note from t join u on t.id = u.id")),
+		pgcheck.Mk("select-unprotected-cols", "", false, false, sess.Q("select id, plain from t")),
+		pgcheck.Mk("select-unprotected-table", "", false, false, sess.Q("select  note , id   from u where id = 2 /* keep my bytes */")),
+		pgcheck.Mk("ext-select-unprotected", "", false, false, sess.Ext("", "select note from u where id = $1", [][]byte{pgcheck.I4(1)}, nil, []int16{1}, nil)),
 	}
 	// two statements pipelined before one Sync: results must be matched with their own statement
 	pipe := []pgproto3.FrontendMessage{
@@ -230,25 +140,23 @@ func reads(c colCfg, k int, v []byte, thorough bool) []stmtT {
 		&pgproto3.Parse{Name: "", Query: "select plain, id from t"}, &pgproto3.Bind{}, &pgproto3.Execute{},
 		&pgproto3.Parse{Name: "", Query: "select id, c from t"}, &pgproto3.Bind{}, &pgproto3.Execute{},
 		&pgproto3.Sync{}}
-	out = append(out, mk("ext-pipelined-three-selects", "", false, true, pipe))
+	out = append(out, pgcheck.Mk("ext-pipelined-three-selects", "", false, true, pipe))
 	if c.Search {
-		lit := literals(c.Shadow, v)[0]
+		lit := pgcheck.Literals(c.Shadow, v)[0]
 		out = append(out,
-			mk("select-where-eq-literal", "", false, true, sess.Q(fmt.Sprintf("select id, c from t where c = %s", lit)), v),
-			mk("ext-select-where-eq-param", "", false, true, sess.Ext("", "select id from t where c = $1", [][]byte{textParams(c.Shadow, v)[0]}, nil, nil, nil), v))
+			pgcheck.Mk("select-where-eq-literal", "", false, true, sess.Q(fmt.Sprintf("select id, c from t where c = %s", lit)), v),
+			pgcheck.Mk("ext-select-where-eq-param", "", false, true, sess.Ext("", "select id from t where c = $1", [][]byte{pgcheck.TextParams(c.Shadow, v)[0]}, nil, nil, nil), v))
 	}
 	if thorough {
 		out = append(out,
-			mk("select-qualified-star", "", false, true, sess.Q("select t.* from t")),
-			mk("select-table-alias", "", false, true, sess.Q("select x.c from t as x where x.id = "+strconv.Itoa(k))),
-			mk("ext-select-all-binary", "", false, true, sess.Ext("", "select id, plain, c from t", nil, nil, []int16{1}, nil)))
+			pgcheck.Mk("select-qualified-star", "", false, true, sess.Q("select t.* from t")),
+			pgcheck.Mk("select-table-alias", "", false, true, sess.Q("select x.c from t as x where x.id = "+strconv.Itoa(k))),
+			pgcheck.Mk("ext-select-all-binary", "", false, true, sess.Ext("", "select id, plain, c from t", nil, nil, []int16{1}, nil)))
 	}
 	return out
 }
 
 // ---- running one session ------------------------------------------------------------------
-
-type violation struct{ key, msg string }
 
 type replayT struct {
 	Config  string   `json:"config"`
@@ -263,286 +171,14 @@ type hist struct {
 	V    int    `json:"value_index"`
 }
 
-func rawOf(ms []sess.Msg) []byte {
-	var b []byte
-	for _, m := range ms {
-		b = append(b, m.Raw...)
-	}
-	return b
-}
-
-func encodeAll(msgs []pgproto3.FrontendMessage) []byte {
-	var b []byte
-	for _, m := range msgs {
-		b, _ = m.Encode(b)
-	}
-	return b
-}
-
-func harnessErr(ms []sess.Msg) string {
-	for _, m := range ms {
-		if e, ok := m.B.(*pgproto3.ErrorResponse); ok && e.Code == "XXVRF" {
-			return e.Message
-		}
-	}
-	return ""
-}
-
-type runner struct {
-	r   *ev.Run
-	env *sess.PGEnv
-	cfg colCfg
-}
-
-// expectedMasked computes what a non-owner must see for a masked column.
-func (rn *runner) maskView(plain []byte) []byte {
-	n := rn.cfg.MaskLen
-	if n >= 0 {
-		if len(plain) <= n {
-			return []byte(rn.cfg.MaskPat)
-		}
-		return append(append([]byte{}, plain[:n]...), rn.cfg.MaskPat...)
-	}
-	n = -n
-	if len(plain) <= n {
-		return []byte(rn.cfg.MaskPat)
-	}
-	return append([]byte(rn.cfg.MaskPat), plain[len(plain)-n:]...)
-}
-
-// run executes the statements as the writer identity, then audits; returns violations and a
-// canonical state key (shadow table contents + named statements) for de-duplication.
-func (rn *runner) run(stmts []stmtT) (viol []violation, state string, harness string) {
-	c := rn.cfg
-	prot, shadow := c.newDB(false), c.newDB(true)
-	add := func(key, format string, a ...interface{}) {
-		viol = append(viol, violation{"C04/" + c.Name + "/" + key, fmt.Sprintf(format, a...)})
-	}
-	ownerIsWriter := bytes.Equal(c.Owner, c.Writer)
-	s, err := sess.NewPGSession(rn.env, c.Writer, nil)
-	if err != nil {
-		return nil, "", "session: " + err.Error()
-	}
-	defer s.Close()
-	if err := s.Startup(); err != nil {
-		return nil, "", "startup: " + err.Error()
-	}
-	var secrets [][]byte
-	step := func(ps *sess.PGSession, st stmtT, reference *sess.PGDB, role string) bool {
-		res, err := ps.Step(st.Msgs, prot.Respond)
-		rn.r.Transitions(1)
-		if err != nil {
-			harness = fmt.Sprintf("%s %s: %v", role, st.Kind, err)
-			return false
-		}
-		var want []sess.Msg
-		if reference != nil {
-			want = reference.Direct(st.Msgs)
-		} else {
-			want = res.DBSent
-			if st.Write {
-				shadow.Direct(st.Msgs) // keep the shadow in step with what was written
-			}
-		}
-		if h := harnessErr(res.DBSent); h != "" {
-			harness = fmt.Sprintf("%s %s (protected db): %s", role, st.Kind, h)
-			return false
-		}
-		if h := harnessErr(want); h != "" {
-			harness = fmt.Sprintf("%s %s (reference db): %s", role, st.Kind, h)
-			return false
-		}
-		if len(ps.Panics) > 0 {
-			add(st.Kind+"/"+role+"/panic", "proxy goroutine panicked: %v", ps.Panics)
-			return false
-		}
-		if res.Terminated {
-			add(st.Kind+"/"+role+"/terminated", "proxy closed the session: %v", ps.ProxyErrors)
-			return false
-		}
-		typed := c.Prot != c.Shadow
-		if d := sess.DiffOpt(res.Client, want, typed); d != "" {
-			add(st.Kind+"/"+role+"/result-differs", "%s statement %q: client received something else than the reference database answers: %s", role, st.Kind, d)
-		}
-		dbRaw := rawOf(res.DB)
-		for _, sec := range append(append([][]byte{}, secrets...), st.Secrets...) {
-			if len(sec) < 5 {
-				continue
-			}
-			if enc := sess.ContainsSecret(dbRaw, sec); enc != "" {
-				add(st.Kind+"/"+role+"/plaintext-to-db:"+enc, "plaintext %.20q reached the database (%s encoding) in statement %q", sec, enc, st.Kind)
-			}
-		}
-		if !st.Protected {
-			if sent := encodeAll(st.Msgs); !bytes.Equal(dbRaw, sent) {
-				add(st.Kind+"/"+role+"/unprotected-statement-changed", "statement without protected columns was not forwarded byte-for-byte: sent %.100q, database got %.100q", sent, dbRaw)
-			}
-			if !bytes.Equal(rawOf(res.Client), rawOf(res.DBSent)) {
-				add(st.Kind+"/"+role+"/unprotected-result-changed", "result of a statement without protected columns was not relayed byte-for-byte")
-			}
-		} else {
-			// rewritten statement keeps its shape
-			for i, m := range st.Msgs {
-				var orig string
-				switch q := m.(type) {
-				case *pgproto3.Query:
-					orig = q.String
-				case *pgproto3.Parse:
-					orig = q.Query
-				default:
-					continue
-				}
-				if i < len(res.DB) {
-					var fwd string
-					switch q := res.DB[i].F.(type) {
-					case *pgproto3.Query:
-						fwd = q.String
-					case *pgproto3.Parse:
-						fwd = q.Query
-					}
-					if c.Search {
-						// the documented rewrite of an equality on a searchable column
-						fwd = strings.ReplaceAll(fwd, "substr(c, 1, 33)", "c")
-					}
-					if same, err := sess.SameShape(orig, fwd); err != nil || !same {
-						add(st.Kind+"/"+role+"/shape-changed", "forwarded statement has another shape: %q -> %q (%v)", orig, fwd, err)
-					}
-				}
-			}
-		}
-		return true
-	}
-	for _, st := range stmts {
-		// the writer is the owner in all but the per-column-client configuration; there the
-		// writer cannot read back what it wrote, so its own reads are compared with the stored form
-		ref := shadow
-		if !ownerIsWriter {
-			ref = nil // the writer cannot decrypt what it writes: it sees the stored form
-		}
-		if !step(s, st, ref, "writer") {
-			return
-		}
-		secrets = append(secrets, st.Secrets...)
-	}
-	// audit by the owner (fresh session when the owner is another identity)
-	owner := s
-	if !ownerIsWriter {
-		o, err := sess.NewPGSession(rn.env, c.Owner, nil)
-		if err != nil {
-			return nil, "", err.Error()
-		}
-		defer o.Close()
-		if err := o.Startup(); err != nil {
-			return nil, "", err.Error()
-		}
-		prot.ResetSession()
-		owner = o
-	}
-	audits := []stmtT{
-		mk("audit-select-all-text", "", false, true, sess.Q("select id, plain, c from t")),
-		mk("audit-select-all-binary", "", false, true, sess.Ext("", "select c, id from t", nil, nil, []int16{1}, nil)),
-	}
-	for _, a := range audits {
-		if !step(owner, a, shadow, "owner") {
-			return
-		}
-	}
-	// stored values are never the plaintext
-	pt, st := prot.Tables["t"], shadow.Tables["t"]
-	if len(pt.Rows) != len(st.Rows) {
-		add("audit/row-count", "protected database has %d rows, reference %d", len(pt.Rows), len(st.Rows))
-	} else {
-		for i := range pt.Rows {
-			p, q := pt.Rows[i][2], st.Rows[i][2]
-			if q == nil || len(q) == 0 {
-				continue
-			}
-			if c.Token && c.Shadow == sess.OIDInt4 {
-				if bytes.Equal(p, q) {
-					add("audit/stored-equals-plaintext", "tokenized integer stored unchanged: %q", q)
-				}
-				continue
-			}
-			if len(q) >= 4 && bytes.Contains(p, q) && !(c.Masked) {
-				add("audit/stored-contains-plaintext", "stored value of protected column contains the plaintext %.20q", q)
-			}
-			if c.Masked && len(q) >= 8 {
-				hidden := q[2:]
-				if c.MaskLen < 0 {
-					hidden = q[:len(q)+c.MaskLen]
-				}
-				if bytes.Contains(p, hidden) {
-					add("audit/stored-contains-hidden-part", "stored value of masked column contains the hidden part %.20q", hidden)
-				}
-			}
-		}
-	}
-	// audit by identities that cannot decrypt
-	for _, other := range [][]byte{fx.Bravo, fx.NoKeys, fx.Alpha} {
-		if bytes.Equal(other, c.Owner) {
-			continue
-		}
-		o, err := sess.NewPGSession(rn.env, other, nil)
-		if err != nil {
-			return nil, "", err.Error()
-		}
-		if err := o.Startup(); err != nil {
-			o.Close()
-			return nil, "", err.Error()
-		}
-		prot.ResetSession()
-		var ref *sess.PGDB
-		if c.Masked {
-			ref = shadow.Clone()
-			for _, row := range ref.Tables["t"].Rows {
-				if row[2] != nil && len(row[2]) > 0 {
-					row[2] = rn.maskView(row[2])
-				}
-			}
-		} else {
-			ref = prot.Clone()
-			if c.Prot != c.Shadow {
-				// typed column, failure policy "ciphertext" (the default): the stored bytes are handed
-				// over as they are in a field announced as the declared type
-				ref.Tables["t"].Cols[2].OID = c.Shadow
-			}
-		}
-		for _, a := range audits {
-			if !step(o, a, ref, "non-owner:"+roleName(other)) {
-				break
-			}
-		}
-		o.Close()
-		if harness != "" {
-			return
-		}
-	}
-	// canonical state
-	var rows []string
-	for _, r := range st.Rows {
-		rows = append(rows, fmt.Sprintf("%s|%s|%x", r[0], r[1], r[2]))
-	}
-	sort.Strings(rows)
-	state = strings.Join(rows, ";")
-	return
-}
-
-func roleName(id []byte) string {
-	switch string(id) {
-	case string(fx.NoKeys):
-		return "no-keys"
-	}
-	return "other-keys"
-}
-
 // ---- enumeration ------------------------------------------------------------------------
 
 type node struct {
 	h     []hist
-	stmts []stmtT
+	stmts []pgcheck.Stmt
 }
 
-func buildStmt(c colCfg, h hist, vals [][]byte, thorough bool) (stmtT, bool) {
+func buildStmt(c pgcheck.ColCfg, h hist, vals [][]byte, thorough bool) (pgcheck.Stmt, bool) {
 	v := vals[h.V%len(vals)]
 	v2 := vals[(h.V+1)%len(vals)]
 	for _, w := range writes(c, h.K, v, v2, thorough) {
@@ -555,7 +191,7 @@ func buildStmt(c colCfg, h hist, vals [][]byte, thorough bool) (stmtT, bool) {
 			return rd, true
 		}
 	}
-	return stmtT{}, false
+	return pgcheck.Stmt{}, false
 }
 
 func main() {
@@ -581,12 +217,12 @@ func main() {
 			if c.Name != rp.Config {
 				continue
 			}
-			env, err := sess.NewPGEnv(ks, sess.PGEnvOptions{EncryptorConfigYAML: c.yaml()})
+			env, err := sess.NewPGEnv(ks, sess.PGEnvOptions{EncryptorConfigYAML: c.ConfigYAML()})
 			if err != nil {
 				ev.Fatalf("env: %v", err)
 			}
-			rn := &runner{r, env, c}
-			var stmts []stmtT
+			rn := &pgcheck.Runner{Property: "C04", R: r, Env: env, Cfg: c}
+			var stmts []pgcheck.Stmt
 			for _, h := range rp.History {
 				st, ok := buildStmt(c, h, values(c, true), true)
 				if !ok {
@@ -594,11 +230,11 @@ func main() {
 				}
 				stmts = append(stmts, st)
 			}
-			viol, _, harness := rn.run(stmts)
+			viol, _, harness := rn.Run(stmts)
 			fmt.Println("harness:", harness)
 			for _, v := range viol {
-				fmt.Println("replayed:", v.key, "::", v.msg)
-				r.Violation(v.key, v.msg, rp)
+				fmt.Println("replayed:", v.Key, "::", v.Msg)
+				r.Violation(v.Key, v.Msg, rp)
 			}
 		}
 		r.Finish()
@@ -606,13 +242,13 @@ func main() {
 	rejected := 0
 	totalStates := 0
 	for _, c := range cfgs {
-		env, err := sess.NewPGEnv(ks, sess.PGEnvOptions{EncryptorConfigYAML: c.yaml()})
+		env, err := sess.NewPGEnv(ks, sess.PGEnvOptions{EncryptorConfigYAML: c.ConfigYAML()})
 		if err != nil {
 			rejected++
 			r.Class("config-rejected:"+c.Name, 1)
 			continue
 		}
-		rn := &runner{r, env, c}
+		rn := &pgcheck.Runner{Property: "C04", R: r, Env: env, Cfg: c}
 		vals := values(c, thorough)
 		// alphabet of (kind, value index); row ids are assigned by position in the history
 		var alphabet []hist
@@ -649,7 +285,7 @@ func main() {
 			type outT struct {
 				h       []hist
 				state   string
-				viol    []violation
+				viol    []pgcheck.Violation
 				harness string
 			}
 			var cands [][]hist
@@ -665,7 +301,7 @@ func main() {
 			}
 			outs := make([]outT, len(cands))
 			done := par.Do(len(cands), r.Expired, func(i int) {
-				var stmts []stmtT
+				var stmts []pgcheck.Stmt
 				for _, x := range cands[i] {
 					st, ok := buildStmt(c, x, vals, thorough)
 					if !ok {
@@ -673,7 +309,7 @@ func main() {
 					}
 					stmts = append(stmts, st)
 				}
-				v, s, hn := rn.run(stmts)
+				v, s, hn := rn.Run(stmts)
 				outs[i] = outT{cands[i], s, v, hn}
 				r.Eval(1)
 				r.Traces(1)
@@ -694,8 +330,8 @@ func main() {
 				}
 				rp := replayT{Config: c.Name, Session: kindsList, History: o.h}
 				for _, v := range o.viol {
-					rp.Detail = v.msg
-					r.Violation(v.key, v.msg, rp)
+					rp.Detail = v.Msg
+					r.Violation(v.Key, v.Msg, rp)
 				}
 				r.Distinct(c.Name + "|" + strings.Join(kindsList, ">") + fmt.Sprint(len(o.viol) > 0))
 				last := o.h[len(o.h)-1]
